@@ -28,7 +28,7 @@ func ComputeTaint(p *Prog) *Taint {
 		t.memo = map[ssa.Value]int{}
 		changed := false
 		for _, fn := range p.Fns {
-			eachInstr(fn, func(in ssa.Instruction) {
+			eachInstrLocal(fn, func(in ssa.Instruction) {
 				s, ok := in.(*ssa.Store)
 				if !ok {
 					return
@@ -164,6 +164,7 @@ func (a *Analysis) Taint() *Taint {
 }
 
 func nilConst(v ssa.Value) bool {
+	v = seeThrough(v)
 	c, ok := v.(*ssa.Const)
 	return ok && c.Value == nil
 }
